@@ -46,6 +46,12 @@ def run(rep, ctx):
                 borrow(rep, fn_, ctx, old, "C04.R5")
         except AnalysisError as e:
             rep.error("C04.R5", str(e))
+    from . import c20
+    rep.rule("C04.R7", "the quantity-type and unit-name descriptions of a product or quotient sum the exponents of every category per quantity type / unit name (shared with C20.R5)")
+    try:
+        borrow(rep, c20.r5_sources, ctx, "C20.R5", "C04.R7", keep=lambda o: "Quantity.__init__" in o.key or "GetUnitName" in o.key or o.key.startswith("joined-exponents"))
+    except AnalysisError as e:
+        rep.error("C04.R7", str(e))
     rep.not_decided += [
         "the numeric magnitude of products and quotients (arithmetic on runtime values)",
         "comparison with an independent dimensional-analysis model",
